@@ -322,10 +322,15 @@ pub fn doomed_prelude(rng: &mut Rng) -> Vec<HStep> {
         for (r, m) in &lines {
             steps.push(HStep { root: Root { fen: fen0.clone(), moves: vec![r.clone(), m.clone()] }, limit: Some(1 + rng.below(3) as u8), stop_at: 0, clear_table: false });
         }
+        let all_children = rng.chance(1, 2);
         for (r, _) in &lines {
-            if rng.chance(1, 2) {
-                steps.push(HStep { root: Root { fen: fen0.clone(), moves: vec![r.clone()] }, limit: Some(2 + rng.below(3) as u8), stop_at: 0, clear_table: false });
+            if all_children || rng.chance(1, 2) {
+                let limit = if all_children { 3 + rng.below(2) as u8 } else { 2 + rng.below(3) as u8 };
+                steps.push(HStep { root: Root { fen: fen0.clone(), moves: vec![r.clone()] }, limit: Some(limit), stop_at: 0, clear_table: false });
             }
+        }
+        if all_children {
+            steps.push(HStep { root: Root { fen: fen0.clone(), moves: vec![] }, limit: Some(2), stop_at: 0, clear_table: false });
         }
         steps.push(HStep { root: Root { fen: fen0.clone(), moves: vec![] }, limit: Some(3 + rng.below(3) as u8), stop_at: 0, clear_table: false });
         steps.push(HStep { root: Root { fen: fen0, moves: vec![] }, limit: Some(5), stop_at: 0, clear_table: false });
